@@ -43,7 +43,7 @@ def build_inputs(c):
                     (CORPUS_PANICKY, 'panicky')):
         for s in lst:
             kinds.setdefault(s, kd)
-    ngen = 120 if c.tier == 'quick' else 1500
+    ngen = 120 if c.tier == 'quick' else 500
     for _ in range(ngen):
         s = gen_expr(r)
         if no_hang(s):
@@ -89,16 +89,16 @@ def check(c):
         thorough_proof(c, ['C13'])
     r = c.rng
     full, prefixes, kinds = build_inputs(c)
-    kfull = 10 if c.tier == 'quick' else 40
+    kfull = 10 if c.tier == 'quick' else 20
     # which inputs go to which context: everything on context 0; the other
     # contexts get all full inputs and a sample of the prefixes
     jobs = []
     for ci, (cname, flags, setup) in enumerate(CONTEXTS):
         ins = list(full)
         if ci == 0:
-            ins += prefixes if c.tier == 'thorough' else r.sample(prefixes, min(len(prefixes), 1500))
+            ins += r.sample(prefixes, min(len(prefixes), 1500 if c.tier == 'quick' else 9000))
         else:
-            ins += r.sample(prefixes, min(len(prefixes), 150 if c.tier == 'quick' else 1500))
+            ins += r.sample(prefixes, min(len(prefixes), 150 if c.tier == 'quick' else 1000))
         for s in ins:
             jobs.append((ci, s))
     # phase 1: uninterrupted
